@@ -28,6 +28,7 @@ type Profile struct {
 	GcOn         bool
 	RenewW       int // weight of renews (default 10)
 	NameCount    int // restrict the name alphabet to its first NameCount entries (0 = all)
+	Colliding    bool // use a pair of names with EQUAL 32-bit FNV hashes (same shard for every shard count) in a third of the draws
 	WideNames    bool // add three names drawn per history from a family of 2000 (spreads over every shard of every count)
 	LeaseFocus   bool
 	Disc         int // weight of session ends (default 4)
@@ -123,6 +124,10 @@ func (g *Gen) lt() *int32 {
 func (g *Gen) name() string {
 	if g.r.Chance(g.p.Invalid / 3) {
 		return ""
+	}
+	if g.p.Colliding && g.r.Chance(33) {
+		a, b := common.FnvPair()
+		return common.Pick(g.r, []string{a, b})
 	}
 	if g.p.WideNames {
 		if g.wide == nil {
